@@ -4,6 +4,7 @@
 # /repo itself is not touched; evidence and replay files go to a temporary directory. Prints the non-holding obligations.
 set -u
 P=$(readlink -f "$1"); PROP=${2:-all}
+"$(dirname "$(readlink -f "$0")")/tools/cacheguard.sh" 2>/dev/null || "$(dirname "$(readlink -f "$0")")/cacheguard.sh" 2>/dev/null
 export GOFLAGS=-mod=mod GOPROXY=off GOSUMDB=off GOTOOLCHAIN=local CGO_ENABLED=0; unset GOWORK
 WT=$(mktemp -d /tmp/tryall-XXXXXX); rmdir $WT
 git -C /repo worktree add --detach $WT HEAD >/dev/null 2>&1 || { echo "cannot create worktree"; exit 2; }
